@@ -20,6 +20,7 @@ mod mon_outstation_db;
 mod eng_master;
 mod mon_master;
 mod gen_master;
+mod eng_rawbytes;
 mod gen_outstation;
 
 use std::io::Write;
@@ -46,6 +47,7 @@ fn main() {
                 "convert" => eng_convert::gen(thorough, seed, &mut out),
                 "outstation" => gen_outstation::gen(thorough, seed, &mut out, gen_outstation::GenCfg { with_db: false }),
                 "master" => gen_master::gen(thorough, seed, &mut out),
+                "rawbytes" => eng_rawbytes::gen(thorough, seed, &mut out),
                 "outstationdb" => gen_outstation::gen(thorough, seed, &mut out, gen_outstation::GenCfg { with_db: true }),
                 _ => {
                     eprintln!("unknown engine {engine}");
@@ -68,6 +70,7 @@ fn main() {
                 "convert" => eng_convert::run(&ops, &mut out, &mut mon),
                 "outstation" | "outstationdb" => eng_outstation::run(&ops, &mut out, &mut mon),
                 "master" => eng_master::run(&ops, &mut out, &mut mon),
+                "rawbytes" => eng_rawbytes::run(&ops, &mut out, &mut mon, Some(&format!("{}.trace", args[4]))),
                 _ => {
                     eprintln!("unknown engine {engine}");
                     std::process::exit(2)
